@@ -253,6 +253,50 @@ pub fn byte_faults(bytes: &[u8], rng: &mut Rng, budget_random: usize, thin: usiz
             }
         }
     }
+    // 3c. double faults that are harmless one by one: a size in the header set to 0 (PDF records
+    // of length 0) together with the start of a PDF range moved by one byte (the leaf counts are
+    // then read from shifted bytes and are huge)
+    {
+        let lines = header_lines(bytes);
+        let mut sizes: Vec<(usize, usize, String)> = Vec::new(); // (value start, value end, key)
+        let mut starts: Vec<(usize, usize, String)> = Vec::new();
+        for (a, b) in &lines {
+            let line = &bytes[*a..*b];
+            let Some(c) = line.iter().position(|x| *x == b':') else { continue };
+            let key = String::from_utf8_lossy(&line[..c]).to_string();
+            if key == "NUM_STATES" || key.starts_with("VECTOR_LENGTH[") || key.starts_with("NUM_WINDOWS[") {
+                let end = *b - 1; // before the newline
+                sizes.push((a + c + 1, end, key));
+            } else if key.contains("_PDF") {
+                // first number of the (first) range
+                let vs = a + c + 1;
+                let ve = (vs..*b).find(|i| !bytes[*i].is_ascii_digit()).unwrap_or(*b);
+                if ve > vs {
+                    starts.push((vs, ve, key));
+                }
+            }
+        }
+        let mut k = 0;
+        for (sa, sb, skey) in &sizes {
+            for (ra, rb, rkey) in &starts {
+                k += 1;
+                if thin > 1 && k % thin != 0 {
+                    continue;
+                }
+                let old: u64 = String::from_utf8_lossy(&bytes[*ra..*rb]).parse().unwrap_or(0);
+                let newstart = format!("{}", old + 1);
+                // splice the later position first
+                let v = if sa > ra {
+                    let v = splice(bytes, *sa, *sb, b"0");
+                    splice(&v, *ra, *rb, newstart.as_bytes())
+                } else {
+                    let v = splice(bytes, *ra, *rb, newstart.as_bytes());
+                    splice(&v, *sa, *sb, b"0")
+                };
+                out.push(Fault { class: "zero-size-and-shifted-pdf", section: "GLOBAL".into(), descr: format!("{} -> 0 together with the start of {} + 1", skey, rkey), bytes: v });
+            }
+        }
+    }
     // 7c. the first / last byte of every data range of the position table -> a non-ASCII byte
     // or CR (text parsers that peek one character at a section edge)
     if let Some(p) = find(bytes, b"[POSITION]\n") {
